@@ -5,7 +5,7 @@ CONSTANTS
   FixZero = FALSE
   FixRevReason = FALSE
   FixSerRev = FALSE
-  Slice = "Life"
+  Slice = "Life1"
   BaseMenu <- BaseMenuMC
   SubMenu <- SubMenuMC
   Nows <- AllNows
@@ -13,8 +13,8 @@ CONSTANTS
   MaxSubs = 1
   MaxSubSigs = 3
   MaxIdSigs = 2
-  LifeAlgos = {"rsa", "ecdsa"}
+  LifeAlgos = {"rsa"}
   LifeFlags <- LifeFlagsMC
-  LifeLives <- LifeLivesBig
+  LifeLives <- LifeLivesMC
 INVARIANTS EmitLife
 CHECK_DEADLOCK FALSE
